@@ -248,6 +248,47 @@ fn search_upgrade(ob: &str) {
     emit(ob, found.is_some(), explored, found.unwrap_or(Value::Null));
 }
 
+// C02.listen-forward: real socket served by varlink::listen; the client pipelines payload right behind the upgrade request
+fn search_listen_forward(ob: &str) {
+    use std::os::unix::net::UnixStream;
+    let mut found = None;
+    let mut explored = 0;
+    for (k, payload) in [&b"payload-after-upgrade"[..], &b"x"[..]].iter().enumerate() {
+        explored += 1;
+        let dir = std::env::temp_dir().join(format!("vx-replay-{}-{}", std::process::id(), k));
+        let _ = std::fs::create_dir_all(&dir);
+        let path = dir.join("sock");
+        let addr = format!("unix:{}", path.display());
+        let stop = Arc::new(std::sync::atomic::AtomicBool::new(false));
+        let stop2 = stop.clone();
+        let a2 = addr.clone();
+        let t = std::thread::spawn(move || {
+            let _ = varlink::listen(service(), &a2, &varlink::ListenConfig { initial_worker_threads: 1, max_worker_threads: 4, idle_timeout: 0, stop_listening: Some(stop2) });
+        });
+        std::thread::sleep(Duration::from_millis(200));
+        let mut observed = Vec::new();
+        if let Ok(mut c) = UnixStream::connect(&path) {
+            let mut msg = render(&Req { text: r#""method":"org.example.t.Up","upgrade":true"#, oneway: false, more: false, expect: Exp::Params });
+            msg.extend_from_slice(payload);
+            let _ = c.write_all(&msg);
+            let _ = c.shutdown(std::net::Shutdown::Write);
+            let _ = c.set_read_timeout(Some(Duration::from_millis(1500)));
+            let _ = c.read_to_end(&mut observed);
+        }
+        stop.store(true, Ordering::SeqCst);
+        let _ = t.join();
+        let _ = std::fs::remove_dir_all(&dir);
+        let mut want = b"{}\0UP:".to_vec();
+        want.extend_from_slice(payload);
+        if observed != want && found.is_none() {
+            found = Some(json!({"sent_in_one_write": String::from_utf8_lossy(&[&b"<upgrade request>\\0"[..], payload].concat()),
+                "client_received": String::from_utf8_lossy(&observed), "expected": String::from_utf8_lossy(&want),
+                "meaning": "bytes pipelined behind the upgrade request never reached call_upgraded"}));
+        }
+    }
+    emit(ob, found.is_some(), explored, found.unwrap_or(Value::Null));
+}
+
 // C17: StringHashSet round trip through text, bytes, value
 fn search_stringset(ob: &str) {
     use varlink::StringHashSet;
@@ -430,6 +471,7 @@ fn main() {
     if m("C05.gate") { search_gate("C05.gate"); }
     if m("C06.no-reply") { search_malformed("C06.no-reply"); }
     if m("C02.upgrade") { search_upgrade("C02.upgrade"); }
+    if m("C02.listen-forward") { search_listen_forward("C02.listen-forward"); }
     if m("C17.set-de") { search_stringset("C17.set-de"); }
     if m("C17.set-ser") { search_stringset("C17.set-ser"); }
     if m("C14.bound") { search_pool_bound("C14.bound"); }
